@@ -32,9 +32,17 @@ def vt(cfg):
     return _VT[k]
 
 
+def make_stream(kind, data):
+    if kind == "bytesio":
+        return None
+    if kind.startswith("sock:"):  # a socket whose peer closes after the last byte, fixed recv chunks
+        return streams.ChunkSocket(data, int(kind[5:]), "close")
+    return streams.STREAM_KINDS[kind](data)
+
+
 def judge_cut(data, k, cfg, full, clean_ends=None, kind="bytesio"):
     """full = item_sigs of the uncut run.  Returns [(key, detail)]."""
-    r = run_reader(data[:k], cfg, stream=None if kind == "bytesio" else streams.STREAM_KINDS[kind](data[:k]))
+    r = run_reader(data[:k], cfg, stream=make_stream(kind, data[:k]))
     out = []
     if r.raised is not None:
         out.append((f"raised|{type(r.raised).__name__}", f"cut={k}: {r.raised}"))
@@ -49,7 +57,7 @@ def judge_cut(data, k, cfg, full, clean_ends=None, kind="bytesio"):
             i += 1
         partial = "partial_frame" if (i >= len(full) or got[i][0] != full[i][0]) else "parsed_differs"
         out.append((f"not_a_prefix|{partial}|class={streams.raw_class(got[i][0])}", f"cut={k} item {i}: {got[i][0].hex()}"))
-    if r.tell != k:
+    if r.tell != k and not kind.startswith("sock:"):
         out.append(("cut_stream_not_consumed", f"cut={k} tell={r.tell}"))
     if clean_ends is not None:
         want = sum(1 for e in clean_ends if e <= k)
@@ -59,7 +67,7 @@ def judge_cut(data, k, cfg, full, clean_ends=None, kind="bytesio"):
 
 
 def judge_stream(data, cfg, clean_ends, acc, case_base, kind="bytesio"):
-    r0 = run_reader(data, cfg, stream=None if kind == "bytesio" else streams.STREAM_KINDS[kind](data))
+    r0 = run_reader(data, cfg, stream=make_stream(kind, data))
     acc.evaluations += 1
     if r0.raised is not None or r0.horizon:
         acc.extra["uncut_run_failed(judged by C08)"] += 1
@@ -85,7 +93,7 @@ def replay_case(case):
     clean_ends = case.get("clean_ends")
     kind = case.get("kind", "bytesio")
     if kind != "bytesio":
-        full = item_sigs(run_reader(data, cfg, stream=streams.STREAM_KINDS[kind](data)))
+        full = item_sigs(run_reader(data, cfg, stream=make_stream(kind, data)))
     out = judge_cut(data, case["cut"], cfg, full, clean_ends, kind)[0]
     return [(k + ("" if kind == "bytesio" else f"|stream={kind}"), d) for k, d in out]
 
@@ -117,6 +125,17 @@ def eval_block(block, acc):
             for kind in ("nonseekable", "minimal"):
                 for cfg in CFGS[:2]:
                     judge_stream(data, cfg, clean_ends_of(seq, cfg), acc, {"stream": data.hex(), "tokens": list(seq), "clean_ends": clean_ends_of(seq, cfg)}, kind)
+        return
+    elif block[0] == "sock":
+        # the peer of a socket closes at every byte: clean sequences of <= 3 frames, recv chunks x receive buffer sizes
+        first = block[1]
+        frames = [t for t in streams.FRAME_TOKENS if vt(CFGS[0])[t][0] == "ok"]
+        for seq in [(first,)] + [(first, t) for t in frames] + [(first, t, u) for t in ("Uack", "N1", "R1") for u in ("Uack", "N1", "R1")]:
+            data = streams.seq_bytes(seq)
+            for chunk, bufsize in ((1, 4), (5, 8), (16, 16), (7, 64), (64, 32), (4096, 4096)):
+                cfg = dict(CFGS[0]); cfg["bufsize"] = bufsize
+                ce = clean_ends_of(seq, cfg)
+                judge_stream(data, cfg, ce, acc, {"stream": data.hex(), "tokens": list(seq), "clean_ends": ce}, f"sock:{chunk}")
         return
     elif block[0] == "long":
         L = block[1]
@@ -154,6 +173,7 @@ def run_tier(tier, t0):
             blocks += [("tokens", f, 4, "a4")]
     blocks += [("long", L) for L in streams.LONG_NAMES]
     blocks += [("kinds", f) for f in streams.FRAME_TOKENS + streams.FRAG_TOKENS]
+    blocks += [("sock", f) for f in streams.FRAME_TOKENS if vt(CFGS[0])[f][0] == "ok"]
     if not q:
         # depth 4 restricted to frame tokens (clean and rejected), all cuts
         pass
@@ -165,7 +185,7 @@ def run_tier(tier, t0):
             f"over {len(ALPHABET)} tokens (frames, noise, fragments)" + ("" if q else f" and of every sequence of 4 tokens over a reduced alphabet of {len(ALPHA4)}") + f" x {len(CFGS)} configurations (ignore / log+handler x validate 0/1). "
             "distinct_nontrivial = distinct (items of uncut run, items of cut run) pairs"
         ),
-        assumptions=["io.BytesIO(S[:k]) models a stream that ends after k bytes; token sequences of <= 2 are also read through a pipe-like stream (tell/seek raise) and a minimal read/readline-only object", "parsed items compared by type, str() and serialize()"],
+        assumptions=["io.BytesIO(S[:k]) models a stream that ends after k bytes; token sequences of <= 2 are also read through a pipe-like stream (tell/seek raise) and a minimal read/readline-only object", "socket ring: clean sequences of <= 3 accepted frames through a socket whose peer closes after k bytes, for every k, x (recv chunk, bufsize) in (1,4),(5,8),(16,16),(7,64),(64,32),(4096,4096)", "parsed items compared by type, str() and serialize()"],
         vacuity=[
             ("some cut run delivered fewer items than the uncut run", any(a > b for (a, b) in acc.outcomes)),
             ("clean sequences were explored", acc.extra["clean_sequences"] > 0),
